@@ -146,6 +146,9 @@ func (b *builder) need() int {
 	if limit < lo {
 		return 0
 	}
+	if b.r.Intn(6) == 0 {
+		return limit // everything up to the end of the stream (or the matching limit): the matcher needs the client's last bytes
+	}
 	for tries := 0; tries < 8; tries++ {
 		n := needChoices[b.r.Intn(len(needChoices))]
 		if n <= limit && n >= lo {
@@ -407,6 +410,11 @@ func genConfig(seed int64, index int, prologue string) *Config {
 	switch prologue {
 	case "proxy1", "proxy2":
 		h := &ref.ProxyHeader{Version: 1, Family: "tcp4", SrcIP: net.IPv4(1, 2, 3, 4), DstIP: net.IPv4(5, 6, 7, 8), SrcPort: 1111, DstPort: 2222}
+		if prologue == "proxy1" && r.Intn(3) == 0 {
+			// the address-less v1 form: the handler keeps the real addresses, the stream behind the header is
+			// the client's all the same
+			h = &ref.ProxyHeader{Version: 1, Family: "unknown"}
+		}
 		if prologue == "proxy2" {
 			h.Version = 2
 			if r.Intn(2) == 0 {
@@ -588,7 +596,14 @@ func runCaseOn(c *fw.Ctx, canary *oracle.Canary, cs *Case, dial func(id string) 
 		if len(segs) > 64 {
 			segs = segs[:64]
 		}
-		tc := tls.Client(&drive.SegWriter{Conn: client, Sizes: segs}, tlsCfg)
+		if cs.SegSeed%2 == 0 {
+			// at most TLS 1.2: the close_notify that follows the client's last record is then reported by the
+			// server's tls.Conn together with that record's bytes (n > 0 and io.EOF from one Read)
+			tlsCfg = tlsCfg.Clone()
+			tlsCfg.MaxVersion = tls.VersionTLS12
+		}
+		hw := &drive.HoldWriter{Conn: &drive.SegWriter{Conn: client, Sizes: segs}}
+		tc := tls.Client(hw, tlsCfg)
 		werr := make(chan error, 1)
 		go func() {
 			if err := tc.Handshake(); err != nil {
@@ -596,12 +611,33 @@ func runCaseOn(c *fw.Ctx, canary *oracle.Canary, cs *Case, dial func(id string) 
 				_ = client.Close()
 				return
 			}
-			app := drive.Segmentation(cs.SegClass, len(S), rand.New(rand.NewSource(cs.SegSeed+1)))
-			if err := drive.WriteSegments(tc, S, app, cs.PauseEvery, 50*time.Microsecond); err != nil {
+			// the last piece of the stream and the close_notify behind it leave in one segment in every other case
+			// (what a TCP stack does with two small writes in a row)
+			last := 0
+			if cs.SegSeed%4 < 2 && len(S) > 0 {
+				last = 1 + int(cs.SegSeed/4%1400)
+				if last > len(S) {
+					last = len(S)
+				}
+			}
+			head := S[:len(S)-last]
+			app := drive.Segmentation(cs.SegClass, len(head), rand.New(rand.NewSource(cs.SegSeed+1)))
+			if err := drive.WriteSegments(tc, head, app, cs.PauseEvery, 50*time.Microsecond); err != nil {
 				werr <- err
 				return
 			}
-			werr <- tc.CloseWrite()
+			if last > 0 {
+				hw.Hold()
+				if _, err := tc.Write(S[len(S)-last:]); err != nil {
+					werr <- err
+					return
+				}
+			}
+			err := tc.CloseWrite()
+			if ferr := hw.Flush(); err == nil {
+				err = ferr
+			}
+			werr <- err
 		}()
 		received = drive.ReadAll(tc)
 		if err := <-werr; err != nil {
